@@ -12,7 +12,7 @@ CHECKS = {
    "Lock acquire/release, spawn, join and exit are the scheduling points; adjacent plain atomics are not split; SC only; resize and get_or_fetch are not run concurrently here.", "DESIGN.md 2.5, 4 C02"),
  "C08": ("inputs", "model_checking", "exhaustive input enumeration (every value of the small types, every byte-string length 0..=20480, every destination-buffer length) on the real encode/decode and end to end through the real hybrid cache, with the independent format reader D",
    "All u8/i8/u16/i16/bool values, pattern sets for wider types, Strings, Vec<u8>/Bytes of every length x 3 content classes; every too-small destination length; end-to-end insert->flush->evict->get->reopen->get for every (second) length x none/zstd/lz4.",
-   "The foyer/serde (bincode) Code path is not built; wide numeric types are covered by bit patterns, not exhaustively.", "DESIGN.md 4 C08"),
+   "Both Code paths: the native implementations and (second build with foyer/serde) the blanket bincode implementation; wide numeric types are covered by bit patterns, not exhaustively.", "DESIGN.md 4 C08"),
  "C09": ("V", "model_checking", V + "; monitors on the device-write log and on pre-images parsed by the independent reader D",
    "Sustained workloads of ~4 device capacities on 4/6/8 blocks, flushers 1-3, reclaimers 1-2, clean threshold 1-2, reinsertion none/one key; Eager/LazyIo/Alternate(/ClientFirst) with all schedules within the deviation bound.",
    "Workloads are a fixed family; what is exhaustive is the schedule space within the bound; reinsertion is configured modestly (the crate documents that picking too much gets it stuck).", "DESIGN.md 4 C09"),
@@ -80,7 +80,7 @@ for pid, (engine, cat, tech, text, note, ref) in sorted(CHECKS.items()):
 done = set(CHECKS)
 manifest = {
     "version": 1,
-    "setup_cmd": "cd /verif/harness && CARGO_NET_OFFLINE=true cargo build --release --offline",
+    "setup_cmd": "cd /verif/harness && CARGO_NET_OFFLINE=true cargo build --release --offline && CARGO_NET_OFFLINE=true cargo build --release --offline -p checks --features serde_path --target-dir /verif/target-serde",
     "hooks": {
         "guard": "cargo feature `verif` on foyer-storage",
         "enable": "the harness depends on /repo's crates by path with features [verif, test_utils]; foyer is bound to the explorer by [patch.crates-io] substitution of madsim-tokio (vrt) and parking_lot (plshim) in /verif/harness/Cargo.toml",
